@@ -257,7 +257,12 @@ pub fn run(path: &str, out: &mut dyn Write) {
                     if let Some(b) = unhex(t[3]) {
                         let (o, rt) = crate::corpus::obs(&b);
                         let kind = flags.split("KIND=").nth(1).map(|k| format!(" KIND={}", k.split(' ').next().unwrap())).unwrap_or_default();
-                        writeln!(out, "{input} IMPL {o} ## RT={rt}{kind}").unwrap();
+                        // EXP is recomputed against the recorded expectation
+                        let exp = flags.split(' ').find_map(|x| x.strip_prefix("EXPECT=")).map(|h| {
+                            let want = unhex(h).and_then(|b| String::from_utf8(b).ok()).unwrap_or_default();
+                            format!(" EXP={} EXPECT={h}", (o.split(" REWRITE ").next() == Some(want.as_str())) as u8)
+                        }).unwrap_or_default();
+                        writeln!(out, "{input} IMPL {o} ## RT={rt}{kind}{exp}").unwrap();
                     }
                 }
             }
